@@ -21,14 +21,14 @@ import (
 )
 
 type output struct {
-	Module    string               `json:"module"`
-	Package   string               `json:"package"`
-	Tier      string               `json:"tier"`
-	LoadS     float64              `json:"load_s"`
-	Harnesses []*harnessOut        `json:"harnesses"`
-	Stats     sym.SolverStats      `json:"solver_stats"`
-	Bounds    map[string]int       `json:"bounds"`
-	Errors    []string             `json:"errors,omitempty"`
+	Module    string          `json:"module"`
+	Package   string          `json:"package"`
+	Tier      string          `json:"tier"`
+	LoadS     float64         `json:"load_s"`
+	Harnesses []*harnessOut   `json:"harnesses"`
+	Stats     sym.SolverStats `json:"solver_stats"`
+	Bounds    map[string]int  `json:"bounds"`
+	Errors    []string        `json:"errors,omitempty"`
 }
 
 type harnessOut struct {
@@ -52,27 +52,28 @@ type harnessOut struct {
 
 func main() {
 	var (
-		repo      = flag.String("repo", "/repo", "repository root")
-		mod       = flag.String("mod", "root", "module: root | estargz | cmd")
-		pkgPat    = flag.String("pkg", "", "package pattern relative to the module, e.g. ./fs/remote")
-		hdir      = flag.String("hdir", "/verif/harness", "harness tree")
-		hre       = flag.String("harness", "^VerifH_", "regexp selecting harness functions")
-		tier      = flag.String("tier", "quick", "quick | thorough")
-		out       = flag.String("out", "", "result JSON file")
-		replayDir = flag.String("replays", "/verif/replays", "directory for replay files")
-		overlayOut = flag.String("overlay-out", "", "write the go-build overlay JSON here")
-		workers   = flag.Int("workers", 16, "parallel workers")
-		maxPaths  = flag.Int("max-paths", 200000, "path budget per harness")
-		maxSteps  = flag.Int("max-steps", 2000000, "SSA instruction budget per path")
-		maxDepth  = flag.Int("max-depth", 400, "symbolic decisions per path")
-		maxFrames = flag.Int("max-frames", 200, "call depth bound")
-		concLimit = flag.Int("conc-limit", 64, "max cases per concretisation")
-		timeoutS  = flag.Int("solver-timeout", 20, "per-query solver timeout (s)")
-		budgetS   = flag.Int("time-budget", 600, "time budget per harness (s)")
-		diff      = flag.Bool("diff-solvers", false, "cross-check every query on z3-new and cvc5")
-		trace     = flag.Bool("trace", false, "trace calls")
-		known     = flag.String("known-open", "", "comma-separated open known-finding ids")
-		prop      = flag.String("prop", "X", "property id (for replay paths)")
+		repo        = flag.String("repo", "/repo", "repository root")
+		mod         = flag.String("mod", "root", "module: root | estargz | cmd")
+		pkgPat      = flag.String("pkg", "", "package pattern relative to the module, e.g. ./fs/remote")
+		hdir        = flag.String("hdir", "/verif/harness", "harness tree")
+		hre         = flag.String("harness", "^VerifH_", "regexp selecting harness functions")
+		tier        = flag.String("tier", "quick", "quick | thorough")
+		out         = flag.String("out", "", "result JSON file")
+		replayDir   = flag.String("replays", "/verif/replays", "directory for replay files")
+		overlayOut  = flag.String("overlay-out", "", "write the go-build overlay JSON here")
+		workers     = flag.Int("workers", 16, "parallel workers")
+		maxPaths    = flag.Int("max-paths", 200000, "path budget per harness")
+		maxSteps    = flag.Int("max-steps", 2000000, "SSA instruction budget per path")
+		maxDepth    = flag.Int("max-depth", 400, "symbolic decisions per path")
+		maxFrames   = flag.Int("max-frames", 200, "call depth bound")
+		concLimit   = flag.Int("conc-limit", 64, "max cases per concretisation")
+		timeoutS    = flag.Int("solver-timeout", 20, "per-query solver timeout (s)")
+		budgetS     = flag.Int("time-budget", 600, "time budget per harness (s)")
+		pathSolverS = flag.Int("path-solver-budget", 120, "solver seconds one path may consume before it is abandoned as unknown")
+		diff        = flag.Bool("diff-solvers", false, "cross-check every query on z3-new and cvc5")
+		trace       = flag.Bool("trace", false, "trace calls")
+		known       = flag.String("known-open", "", "comma-separated open known-finding ids")
+		prop        = flag.String("prop", "X", "property id (for replay paths)")
 	)
 	flag.Parse()
 
@@ -160,7 +161,7 @@ func main() {
 			Config: sym.Config{MaxSteps: *maxSteps, MaxDepth: *maxDepth, MaxFrames: *maxFrames, ConcLimit: *concLimit,
 				Trace: *trace, KnownOpen: knownOpen, Tier: tierN},
 			Workers: *workers, MaxPaths: *maxPaths, SolverTimeout: time.Duration(*timeoutS) * time.Second,
-			TimeBudget: time.Duration(*budgetS) * time.Second, DiffSolvers: *diff,
+			TimeBudget: time.Duration(*budgetS) * time.Second, DiffSolvers: *diff, PathSolverBudget: time.Duration(*pathSolverS) * time.Second,
 		}
 		hr := sym.RunHarness(prog, fn, hc)
 		ho := &harnessOut{Name: hr.Harness, Paths: hr.Paths, Outcomes: hr.Outcomes, Findings: hr.Findings, Reached: hr.Reached,
@@ -195,11 +196,23 @@ func main() {
 		res.Harnesses = append(res.Harnesses, ho)
 		fmt.Fprintf(os.Stderr, "%s: paths=%d outcomes=%v findings=%d inconclusive=%d reached=%v wall=%.1fs\n",
 			hr.Harness, hr.Paths, hr.Outcomes, len(hr.Findings), len(hr.Inconclusive), hr.Reached, hr.Wall.Seconds())
-		for _, m := range hr.Inconclusive {
-			fmt.Fprintln(os.Stderr, "  inconclusive:", m)
+		for k, m := range hr.Inconclusive {
+			if k < 6 {
+				if len(m) > 600 {
+					m = m[:600]
+				}
+				fmt.Fprintln(os.Stderr, "  inconclusive:", m)
+			}
 			exit = 2
 		}
-		for _, f := range hr.Findings {
+		for k, f := range hr.Findings {
+			if k >= 4 {
+				fmt.Fprintf(os.Stderr, "  ... %d more findings\n", len(hr.Findings)-k)
+				break
+			}
+			if len(f.Nondets) > 24 {
+				f.Nondets = f.Nondets[:24]
+			}
 			fmt.Fprintf(os.Stderr, "  finding: %s %s %s known=%q nondets=%v\n", f.Kind, f.AssertID, firstLine(f.Msg), f.Known, f.Nondets)
 		}
 	}
